@@ -60,7 +60,8 @@ def analyse_run(cfg, driver, props=PROPS, light=False):
     mach_issues, mach_stats, logs = [], {}, None
     # an objective that returns a view of its argument makes `agent.fit` follow the agent between evaluations: the
     # machine's agents carry values, so such runs are judged by the direct oracles only
-    if observer and rec['error'] is None and cfg.get('objective') not in ('view0', 'view00', 'bufout') \
+    doubles = analyse.values_are_doubles(rec)
+    if observer and rec['error'] is None and cfg.get('objective') not in ('view0', 'view00', 'bufout') and doubles \
             and not (cfg.get('prior') or {}).get('other_objective'):   # (the machine starts from a state consistent with one objective)
         try:
             mach_issues, mach_stats, logs = analyse.machine_check(rec, driver)
